@@ -87,10 +87,11 @@ type Specs struct {
 	Axioms    []*Lemma
 	Lemmas    []*Lemma
 	Files     []string
+	Params    map[string]string // key variable full name -> declared type name
 }
 
 var clauseKW = map[string]bool{"store": true, "pure": true, "axiom": true, "func": true, "requires": true, "ensures": true,
-	"modifies": true, "nopanic": true, "loop": true, "terminates": true, "trusted": true, "lemma": true, "accessor": true, "package": true}
+	"modifies": true, "nopanic": true, "loop": true, "terminates": true, "trusted": true, "lemma": true, "accessor": true, "package": true, "param": true}
 
 var tagRe = regexp.MustCompile(`^\s*\[([A-Za-z0-9_.\-]+)\]`)
 
@@ -193,6 +194,16 @@ func (sp *Specs) loadFile(repo, file string) error {
 		switch r.kw {
 		case "package":
 			pkgPath = strings.TrimSpace(r.text)
+		case "param":
+			// param <pkgpath.KeyVar> <type>
+			fs := strings.Fields(r.text)
+			if len(fs) != 2 {
+				return fmt.Errorf("%s:%d: bad param decl", file, r.line)
+			}
+			if sp.Params == nil {
+				sp.Params = map[string]string{}
+			}
+			sp.Params[fs[0]] = fs[1]
 		case "store":
 			// store Name kv=<module>/<prefix> key=<fun>(argtypes) val=<type> [raw]
 			fs := strings.Fields(r.text)
